@@ -2,7 +2,7 @@ prop(
     "C02",
     pkg="c02",
     title="Linting any input terminates with a renderable verdict, never a crash",
-    technique="property-based testing (rapid) + fixture corpus mutation: validity predicate over the whole lint pipeline, plus the real binary on a sample",
+    technique="property-based testing (rapid) + fixture corpus mutation + native coverage-guided fuzzing (go test -fuzz, thorough tier): validity predicate over the whole lint pipeline, plus the real binary with drawn switches and configurations",
     level="exploration",
     design_ref="DESIGN.md 2/C02",
     needs_bin=True,
